@@ -3532,7 +3532,8 @@ fn frame_plan(barrel: itsgen::gen::Barrel, n: usize, rng: &mut Rng) -> (Vec<itsg
     let mut plan = Vec::new();
     let mut kinds = Vec::new();
     for k in 0..n {
-        let bc = rng.below(256) as u8;
+        // (bunch-counter byte 0x00 in 1 frame of 6: a byte that looks like padding)
+        let bc = if rng.chance(1, 6) { 0 } else { rng.below(256) as u8 };
         let mut lanes: Vec<u8> = base_lanes.iter().copied().filter(|l| !fatal_lanes.contains(l)).collect();
         let mut kind = "legal";
         let mk_chips = |lane_id: u8, bc: u8, rng: &mut Rng| -> Vec<Chip> {
@@ -3636,6 +3637,11 @@ fn frame_plan(barrel: itsgen::gen::Barrel, n: usize, rng: &mut Rng) -> (Vec<itsg
             let mut idx: Vec<usize> = (0..lfs.len()).collect();
             for _ in 0..many {
                 let li = idx.remove(rng.usize_below(idx.len()));
+                // (at least one lane of the stave's own set stays alive)
+                let alive = base_lanes.iter().filter(|l| !fatal_lanes.contains(l) && **l != lfs[li].lane_id).count();
+                if alive == 0 {
+                    continue;
+                }
                 lfs[li].fatal_ape = Some(*rng.pick(&FATAL_APES));
                 fatal_lanes.push(lfs[li].lane_id);
             }
@@ -4123,13 +4129,14 @@ impl Scenario for Custom {
                 Trial::Custom { spec, expect: exp, exit_code, label: format!("chip count/order | {barrel:?}") }
             }
             _ => {
-                let p_gen = *rng.pick(&[1u16, 2, 89, 198, 1000, 1782, 3563]);
+                // (period 0 = one internal trigger per orbit at a fixed bunch crossing: a legal configuration)
+                let p_gen = *rng.pick(&[0u16, 1, 2, 89, 198, 1000, 1782, 3563]);
                 // (a configured period of a whole orbit or more can never be met: every pair is reported)
                 let p_cfg = match rng.below(8) {
                     0..=3 => p_gen,
                     4 => *rng.pick(&[3564u16, 7128, 65535]),
                     5 => 3564 + p_gen,
-                    _ => *rng.pick(&[1u16, 88, 198, 199, 3563, 1782]),
+                    _ => *rng.pick(&[0u16, 1, 88, 198, 199, 3563, 1782]),
                 };
                 let mut cfg = GenCfg::swarm(&mut rng, true);
                 cfg.n_links = rng.range(1, 3) as usize;
